@@ -200,6 +200,13 @@ func cmdCheck(args []string) int {
 	if ps.TimeoutS > 0 {
 		timeout = ps.TimeoutS
 	}
+	for _, vc := range vcs {
+		if len(vc.stale) > 0 && timeout < 60 {
+			// the bounded fallback after a loop was rewritten only reports what a solver refutes with a model:
+			// give the solvers time to find it (this path is never taken on the unchanged tree)
+			timeout = 60
+		}
+	}
 	workers := 8
 	if *tier == "thorough" {
 		timeout = 120
